@@ -225,6 +225,21 @@ def run(ck):
                     for fl in lib.fields_of(prog, cls):
                         if fl["name"] == fname and fl.get("rec"):
                             covered |= lib.whole_object_cover(prog, fl["rec"])
+        # ... and it does so whatever state the parser is in: in the reset routines themselves nothing that re-initialises is skipped on
+        # some path (an early return for "nothing to forget yet" keeps exactly the state of an abandoned message)
+        for rf in sorted({x[0].id: x[0] for x in rreach.values() if x[0].name.endswith("::reset") and (x[0].cls or "").startswith(H)}.values(), key=lambda f_: f_.id):
+            inloop = set()
+            for _h, body in cfg.natural_loops(rf):
+                inloop |= body
+            for how_f, evs in sorted(((fld, [ev for how, ev, _c in lst if ev.func.id == rf.id and reinitialises(fld, how, ev)]) for fld, lst in wreset.items()), key=lambda x: x[0]):
+                for ev in evs:
+                    if ev.block in inloop:
+                        continue
+                    loose = [x for x in cfg.exits_without(rf, lambda e, ev=ev: e is ev or (e.get("i") == ev.get("i") and e.get("l") == ev.get("l") and e["k"] == ev["k"])) if x.kind != "throw"]
+                    ck.ob("C04-R2", "%s/unconditional: %s" % (rf.base.replace(H, ""), how_f.replace(H, "")), not loose, ev.loc, rf,
+                          "re-initialised on every path of %s" % rf.name if not loose else
+                          "%s returns without re-initialising %s on some path (%s): what an abandoned message left there reaches the next one"
+                          % (rf.name, how_f.replace(H, ""), (loose[0].event or {}).get("t") if getattr(loose[0], "event", None) else "early return"))
         n = 0
         for fld in sorted(wparse):
             if fld == lib.STREAMBUF_AREA:
